@@ -43,28 +43,39 @@ def gen_rows(rng: _pyrandom.Random, F: int, n: int) -> list[list[int]]:
     return rows
 
 
-def gen_cfg(rng: _pyrandom.Random) -> dict:
+def gen_cfg(rng: _pyrandom.Random, objects: float = 0.0) -> dict:
     thr = rng.choice(THRS + [rng.random()])
-    return {
-        "thr": thr,
-        "bf": rng.choice([2, 2, 3, 3, 4, 5, 10, 50]),
-        "crit": rng.choice(CRITS),
-        "tol": rng.choice([None] + TOLS),
-    }
+    crit = rng.choice(CRITS)
+    tol = rng.choice([None] + TOLS)
+    if rng.random() < objects:
+        crit = ("obj", crit, rng.choice(TOLS))
+        if rng.random() < 0.7:
+            tol = None
+    elif rng.random() < objects:
+        crit = None
+    return {"thr": thr, "bf": rng.choice([2, 2, 3, 3, 4, 5, 10, 50]), "crit": crit, "tol": tol}
 
 
 def gen_history(rng: _pyrandom.Random, max_ops: int = 12, max_rows: int = 40, malformed: float = 0.1,
-                allow: tuple = ("fit", "refine", "recluster", "setmerge", "setthr", "setbf", "delint", "reset")) -> dict:
+                allow: tuple = ("fit", "refine", "recluster", "setmerge", "setthr", "setbf", "delint", "reset"),
+                objects: float = 0.0, weights: dict | None = None, big: float = 0.06) -> dict:
     F = rng.choice(FS_SMALL * 3 + FS_BIG)
-    cfg = gen_cfg(rng)
+    cfg = gen_cfg(rng, objects)
     n_ops = rng.randint(1, max_ops)
     ops: list[dict] = []
-    weights = {"fit": 6, "refine": 2, "recluster": 2, "setmerge": 2, "setthr": 1, "setbf": 1, "delint": 1, "reset": 1}
+    weights = weights or {"fit": 6, "refine": 2, "recluster": 2, "setmerge": 2, "setthr": 1, "setbf": 1, "delint": 1, "reset": 1}
     names = [k for k in weights if k in allow]
     for i in range(n_ops):
         name = "fit" if i == 0 else rng.choices(names, [weights[k] for k in names])[0]
         if name == "fit":
-            rows = gen_rows(rng, F, rng.randint(1, max_rows))
+            if rng.random() < big:
+                # a large tight group: clusters that cross 127/128 and 255/256 members (width promotion)
+                proto = [1 if rng.random() < 0.6 else 0 for _ in range(F)]
+                nbig = rng.choice([130, 200, 257, 300])
+                fl = rng.choice([0.0, 0.01, 0.03])
+                rows = [[b ^ (1 if rng.random() < fl else 0) for b in proto] for _ in range(nbig)]
+            else:
+                rows = gen_rows(rng, F, rng.randint(1, max_rows))
             op = {"op": "fit", "F": F, "rows": rows, "form": rng.choice(FORMS), "dtype": rng.choice(INT_DTYPES)}
             if rng.random() < malformed and len(rows) >= 2:
                 k = rng.randint(1, len(rows) - 1)
@@ -148,7 +159,9 @@ class Session:
         try:
             c = self.cfg["crit"]
             kw = {}
-            if isinstance(c, (tuple, list)):
+            if c is None:
+                pass
+            elif isinstance(c, (tuple, list)):
                 fn = get_merge_accept_fn(c[1], c[2])
                 kw["merge_criterion"] = fn
             elif c is not None:
